@@ -481,6 +481,18 @@ def same_range(rg, lo, hi): return rg[0] == lo and rg[1] == hi
 
 ROOT = pv('root'); SQ = pv('square'); NC = pv('numcells')
 
+def walk_pat_vars_(p):
+    out = []
+    def rec(q):
+        if not isinstance(q, dict): return
+        if q.get('k') == 'Binding' and q.get('var'): out.append(q['var'])
+        if isinstance(q.get('sub'), dict): rec(q['sub'])
+        if isinstance(q.get('subpattern'), dict): rec(q['subpattern'])
+        for sp in q.get('subs') or []: rec(sp['pat'])
+        for sp in q.get('pats') or []: rec(sp)
+    rec(p)
+    return out
+
 def rule_sudoku(F, R):
     c = F.crate('sudoku_gen')
     if c is None or 'sudoku_gen::main' not in c.ithir:
@@ -599,7 +611,29 @@ def rule_sudoku(F, R):
         if x['k'] == 'Call' and callee_name(x) == 'std::io::stdin': chans.add('stdin')
         if x['k'] == 'Call' and callee_name(x) == 'std::fs::File::open': chans.add('file')
         if x['k'] == 'Call' and callee_name(x) == 'std::fs::read_to_string': chans.add('file'); reads.append(x)        # the whole file in one call
-    okr = len(reads) >= 1 and all((callee_name(x) or '').split('::')[-1] == 'read_to_string' for x in reads) and chans == {'stdin', 'file'}
+    # ... and each channel that is opened is also read: the read on the opened file, the read on stdin
+    file_vars = set()
+    for b_ in walk(t_main['body']):
+        if b_['k'] != 'Block': continue
+        for st_ in b_['stmts']:
+            if st_['k'] == 'Let' and st_.get('init') is not None and any(y['k'] == 'Call' and callee_name(y) == 'std::fs::File::open' for y in walk(st_['init'])):
+                file_vars.update(walk_pat_vars_(st_['pat']))
+    read_from = set()
+    for x in reads:
+        if callee_name(x) == 'std::fs::read_to_string': read_from.add('file'); continue
+        rc = x['args'][0] if x['args'] else None
+        if rc is None: continue
+        if any(y['k'] == 'Call' and callee_name(y) == 'std::io::stdin' for y in walk(rc)): read_from.add('stdin')
+        if any(y['k'] == 'Call' and callee_name(y) == 'std::fs::File::open' for y in walk(rc)) or root_var(rc) in file_vars: read_from.add('file')
+        # a reader variable that is either channel (`let mut reader: Box<dyn Read> = match args.input { Some(p) => Box::new(File::open(p)?), None => Box::new(stdin()) }`)
+        rv_ = root_var(rc)
+        for b_ in walk(t_main['body']):
+            if b_['k'] != 'Block' or rv_ is None: continue
+            for st_ in b_['stmts']:
+                if st_['k'] == 'Let' and st_.get('init') is not None and rv_ in walk_pat_vars_(st_['pat']):
+                    if any(y['k'] == 'Call' and callee_name(y) == 'std::io::stdin' for y in walk(st_['init'])): read_from.add('stdin')
+                    if any(y['k'] == 'Call' and callee_name(y) == 'std::fs::File::open' for y in walk(st_['init'])): read_from.add('file')
+    okr = len(reads) >= 1 and all((callee_name(x) or '').split('::')[-1] == 'read_to_string' for x in reads) and chans == {'stdin', 'file'} and read_from == {'stdin', 'file'}
     R.count('U:input-reads', len(reads)); R.obligation(okr, 'U reads')
     if not okr: R.violation('sudoku_gen::main / U / input', 'U', 'the puzzle text must be read completely (read_to_string) from the input file and from stdin; found %s' % [(callee_name(x) or '').split('::')[-1] for x in reads])
     tail_true = any(s.strip() == 'true' for s in texts)
